@@ -1,6 +1,22 @@
-"""Kani part of C13 (write_rej_to, make_rej_filename) — filled in with the writer families."""
+"""Kani part of C13: the reject writer (write_rej_to) and the reject file name."""
+import itertools
+from ..kani import Instance
+from . import FROM_UTF8_STUB
 
 
 def spec_part(tier, seed):
-    return {"instances": [], "functions": [], "symbolic": "", "bounds": {}, "assumptions": [], "outside": [],
-            "explanation": "guards: a reject file is created only for a file patch of the rejected patch whose report failed"}
+    inst = []
+    vecs = [v for h in ((1, 2) if tier == "quick" else (1, 2, 3)) for v in itertools.product([True, False], repeat=h)]
+    for v in vecs:
+        nm = "c13w_" + "".join("a" if x else "f" for x in v)
+        arr = ", ".join(str(x).lower() for x in v)
+        inst.append(Instance(nm, "rej", "rej_case::<%d>([%s])" % (len(v), arr), unwind=110, unwindset={"memcmp.0": 30}, stubs=[FROM_UTF8_STUB],
+                             mem_gb=12, timeout_s=2400, sub="C13 reject writer: exactly the failed hunks", params=dict(report=["applied" if x else "failed" for x in v])))
+    return {"instances": inst,
+            "functions": ["FilePatch::write_rej_to", "write_file_patch_header_to", "TextHunk::write_to", "parse_hunks (read back)"],
+            "symbolic": "every line byte of the hunks; the applied/failed vector is enumerated (all vectors up to 3 hunks)",
+            "bounds": {"hunks": "<= 2 (quick), <= 3 (thorough)", "lines_per_hunk_side": 1},
+            "assumptions": ["report built with the crate's own constructors (new_with_capacity + push_hunk_report)", "fixed-size io::Write sink; from_utf8 stub; memchr stand-in"],
+            "outside": ["hunks with context; the reject file name (make_rej_filename is OsString/extension handling in the binary crate)"],
+            "explanation": "write_rej_to's output is parsed back: exactly the failed hunks, in order, with their line numbers and bytes; nothing is written when every hunk applied. "
+                           "Guards over MIR: a reject file is created only for a file patch of the rejected patch whose report failed"}
